@@ -254,6 +254,10 @@ def RULE(tier):
         f"bin/dtype: ALL ordered dtype pairs over {{bool,i1,i8,u1,f4,f8,c16,f8-with-NaN/inf,M8[D],m8[h]}} x all operators/ufuncs (incl. {len(BIN_UFUNCS_X)} further "
         "binary ufuncs and NumPy-ufunc dispatch) x kinds {dd,dn,nd, dask with python scalar / numpy scalar on either side} on "
         f"{'6' if t else '3'} multi-chunk broadcasting shape pairs; "
+        f"zchunk: chunkings WITH zero-length chunks (every partitioning of an axis into <= 3 chunks, empty chunks leading / inner / trailing): every PAIR of them on "
+        f"(4,)x(4,), (5,)x(5,), (2,4)x(4,){', (2,4)x(1,4), (2,4)x(2,4), (6,)x(6,)' if t else ' (and (2,4)x(1,4) with 3 chunkings of the long operand)'} for "
+        f"{'16' if t else '2-4'} binary ops, and on {'(4,), (5,), (2,4)' if t else '(4,)'} for where / clip / "
+        "ufunc(where=,out=) with every pair on two operands and 3 chunkings (single, trailing empty, leading empty) on the others; "
         f"un: {len(UNARY) + len(UNARY_X)} unary ufuncs/functions x 10 dtypes x every shape x every chunking; "
         "where: every compatible (cond,x,y) shape triple over {(),(3,),(2,3),(1,3),(2,1),(0,)} x every chunking of every dask operand"
         f"{'' if t else ' (when all three operands are multi-chunk: every chunking of two of them x 3 of the third)'} x 4 dask/numpy kind patterns x "
@@ -266,13 +270,13 @@ def RULE(tier):
     )
 
 
-NSPLIT = {"binchunk": 24, "bindtype": 24, "where": 12, "ufw": 8, "un": 4, "astype": 2, "clip": 4}
+NSPLIT = {"zchunk": 10, "binchunk": 24, "bindtype": 24, "where": 12, "ufw": 8, "un": 4, "astype": 2, "clip": 4}
 
 
 def shards(tier):
     out = []
     # simplest first
-    for fam in ("un", "astype", "clip", "ufw", "where", "binchunk", "bindtype"):
+    for fam in ("un", "astype", "clip", "ufw", "where", "zchunk", "binchunk", "bindtype"):
         k = NSPLIT[fam] * (1 if tier == "quick" else (8 if fam == "binchunk" else 2))
         for part in range(k):
             out.append((fam, part, k))
@@ -483,7 +487,65 @@ def gen_clip(tier):
                             yield ("clip", style, A, LO, HI)
 
 
-GEN = {"binchunk": gen_binchunk, "bindtype": gen_bindtype, "un": gen_un, "where": gen_where, "ufw": gen_ufw, "astype": gen_astype, "clip": gen_clip}
+def zero_chunkings(shape, maxparts=3):
+    """every partitioning of every axis into <= maxparts chunks, EMPTY chunks allowed (leading, inner, trailing)"""
+    per_axis = [list(enums.compositions_with_zeros(n, maxparts if n > 2 else 2)) for n in shape]
+    return [tuple(c) for c in itertools.product(*per_axis)]
+
+
+def few_zero_chunkings(shape):
+    """3 chunkings: single chunk, trailing empty chunk, leading empty chunk"""
+    out = []
+    for pick in (lambda n: (n,), lambda n: (1, n - 1, 0) if n > 1 else (n, 0), lambda n: (0, n - 2, 2) if n > 2 else (0, n)):
+        out.append(tuple(pick(n) for n in shape))
+    return out
+
+
+def gen_zchunk(tier):
+    """chunkings WITH zero-length chunks: operands whose chunk lists on a shared axis differ and end / start / contain
+    empty chunks must still be unified (common_blockdim) and give NumPy's result"""
+    t = tier == "thorough"
+    z = zero_chunkings
+    ops = ["+", "<", "maximum", "**"] if not t else list(OPERATORS) + BIN_UFUNCS
+    # binary: every pair of such chunkings
+    pairs = [((4,), (4,)), ((5,), (5,)), ((2, 4), (4,))] + ([((2, 4), (1, 4)), ((2, 4), (2, 4)), ((6,), (6,))] if t else [])
+    for sa, sb in pairs:
+        big = sa != (4,)
+        for A in operand_variants(sa, "i8", ["d"], z):
+            for B in operand_variants(sb, "f8", ["d"], z):
+                for op in ops[:2] if (big and not t) else ops:
+                    yield ("bin", op, A, B)
+    if not t:  # a broadcast (length-1) axis that is itself split into (0,1) / (1,0): 3 chunkings of the long operand x every chunking of the short one
+        for A in operand_variants((2, 4), "i8", ["d"], few_zero_chunkings):
+            for B in operand_variants((1, 4), "f8", ["d"], z):
+                yield ("bin", "+", A, B)
+    for sa, sb in pairs:
+        for A in operand_variants(sa, "i8", ["d"], z):
+            yield ("bin", "+", A, opnd(sb, "f8", "n"))
+            yield ("bin", "<", opnd(sb, "f8", "n"), A)
+    # where / clip / ufunc(where=, out=): two operands take every pair of chunkings, the others 3 (single, trailing empty, leading empty)
+    for shp in [(4,)] if not t else [(4,), (5,), (2, 4)]:
+        fz = few_zero_chunkings
+        for P in operand_variants(shp, "bool", ["d"], z):
+            for Q in operand_variants(shp, "i8", ["d"], z):
+                for R in operand_variants(shp, "f8", ["d"], fz):
+                    yield ("where", P, Q, R)
+        for Q in operand_variants(shp, "i8", ["d"], z):
+            for R in operand_variants(shp, "f8", ["d"], z):
+                for P in operand_variants(shp, "bool", ["d"], fz):
+                    yield ("where", P, Q, R)
+                yield ("clip", "func", R, Q, opnd((), "f8", "p"))
+                yield ("clip", "method", R, None, Q)
+                for W in operand_variants(shp, "bool", ["d"], fz):
+                    yield ("ufw", "add", (Q, R), W, None)
+                    yield ("ufw", "add", (Q, R), W, opnd(shp, "f8", "d", fz(shp)[1]))
+        for Q in operand_variants(shp, "f8", ["d"], z):
+            for W in operand_variants(shp, "bool", ["d"], z):
+                yield ("ufw", "negative", (Q,), W, opnd(shp, "f8", "d", fz(shp)[2]))
+                yield ("ufw", "sqrt", (Q,), W, None)
+
+
+GEN = {"zchunk": gen_zchunk, "binchunk": gen_binchunk, "bindtype": gen_bindtype, "un": gen_un, "where": gen_where, "ufw": gen_ufw, "astype": gen_astype, "clip": gen_clip}
 
 
 def cases_of(shard, tier):
@@ -501,6 +563,14 @@ def known_class(case):
         nat = natural_out(fn, len(ins), ins[0][1], ins[-1][1])
         if np_dtype(O[1]) != np.dtype(nat):
             return "out-dtype-differs"
+    if case[0] == "bin" and all(o[2] in "dn" for o in case[2:4]):
+        # an axis of length 1 split into several chunks (one of them empty) that must be broadcast against a longer axis
+        A, B = case[2], case[3]
+        for X, Y in ((A, B), (B, A)):
+            if X[2] == "d" and X[3]:
+                for k in range(1, len(X[0]) + 1):
+                    if X[0][-k] == 1 and len(X[3][-k]) > 1 and k <= len(Y[0]) and Y[0][-k] > 1:
+                        return "size1-axis-empty-chunk"
     if case[0] == "bin" and case[1] in ("==", "!=") and case[2][2] in ("n", "g") and case[3][2] == "d":
         try:
             np.equal(np.zeros(1, np_dtype(case[2][1])), np.zeros(1, np_dtype(case[3][1])))
